@@ -35,7 +35,7 @@ from asyncio import (
 )
 from math import inf
 from itertools import islice
-from threading import Lock
+from threading import Lock, RLock
 from functools import partial, wraps
 from concurrent.futures import ThreadPoolExecutor
 from weakref import WeakKeyDictionary as WeakKeyDict, finalize
@@ -417,8 +417,10 @@ def threadsafe_async_cache(
 
     # 1 loop + event per input key currently caching
     events: Dict[Tuple[Any, ...], Tuple[aio.AbstractEventLoop, aio.Event]] = {}
-    # Ensure thread safety while creating events
-    event_making_lock = Lock()
+    # Ensure thread safety while creating events. Reentrant because the
+    # finally block below also runs when an abandoned call is garbage
+    # collected, which can happen in a thread that is holding the lock
+    event_making_lock = RLock()
 
     @wraps(_func)
     async def _wrapper(*args: Any, **kwargs: Any) -> Any:
